@@ -3,7 +3,7 @@
    does on the equivalent generic JSON document (norm), and never panics. *)
 From JM Require Import Model.Base Model.Num Model.Utf8 Model.Value Model.JsonText Model.Slice Model.Functions
      Model.Interp Model.GoVal.
-From JM Require Import gen.Tables Proofs.ValueFacts Proofs.SortFacts.
+From JM Require Import gen.Tables Proofs.ValueFacts Proofs.SortFacts Spec.Grammar Spec.PySlice Proofs.SpecFacts Proofs.SliceFacts Proofs.InterpRefine.
 From Coq Require Import ZifyBool.
 
 Section WithNum.
@@ -672,6 +672,99 @@ Proof.
   intros Hn Hid Hg H. unfold search_go in H.
   destruct (go_nav K fuel n (value_of g) r Hn Hid (good_value_of K g Hg) (cur_value_of g) H) as [E _].
   rewrite norm_value_of in E. exact E.
+Qed.
+
+
+(* ---- no panic on Go documents ---- *)
+(* every slice bound is a Go int *)
+Fixpoint slices_ok (n : node) : bool :=
+  let 'Node ty val ch := n in
+  (match val with NVSlice a b c => opt_int64 a && opt_int64 b && opt_int64 c | _ => true end) && forallb slices_ok ch.
+
+Lemma np_fold_pipe (f : nat) (ch : list node) : forall (acc : outcome gval),
+  np acc -> (forall c g, In c ch -> np (ExecuteG f c g)) ->
+  np (fold_left (fun acc c => r <- acc ;; ExecuteG f c r) ch acc).
+Proof.
+  induction ch as [|c ch IH]; intros acc Ha H; [exact Ha|]. cbn [fold_left]. apply IH.
+  - apply np_bind; [exact Ha|]. intros r _. apply H. left. reflexivity.
+  - intros c' g Hin. apply H. right. exact Hin.
+Qed.
+
+(* on any Go document whatever (structs, pointers, nil pointers, typed slices,
+   maps), a navigational expression never panics: it returns a value, an error
+   or, for arrays of 2^63 elements, nothing *)
+Theorem go_no_panic : forall f n g, nav n = true -> slices_ok n = true -> np (ExecuteG f n g).
+Proof.
+  induction f as [|f IH]; intros n g Hn Hs; [(unfold np; discriminate)|].
+  destruct n as [ty val ch]. cbn [slices_ok] in Hs. apply andb_true_iff in Hs as [Hsv Hsc].
+  assert (Hc : forall c g', In c ch -> nav c = true -> np (ExecuteG f c g')).
+  { intros c g' Hin Hnc. apply IH; [exact Hnc|]. rewrite forallb_forall in Hsc. apply Hsc. exact Hin. }
+  destruct ty; cbn [nav] in Hn; try (unfold np; discriminate); cbn [ExecuteG].
+  - (* ASTFunctionExpression *)
+    destruct val as [ |name| | | | ]; try (unfold np; discriminate). destruct ch as [|a [|]]; try (unfold np; discriminate).
+    apply andb_true_iff in Hn as [Hname Hna]. rewrite Hname.
+    apply np_bind; [apply Hc; [left; reflexivity | exact Hna]|]. intros x _. destruct x; (unfold np; discriminate).
+  - (* ASTField *) destruct val; try (unfold np; discriminate). destruct g; (unfold np; discriminate).
+  - (* ASTFilterProjection *)
+    destruct ch as [|c0 [|c1 [|c2 [|]]]]; try (unfold np; discriminate). cbn [forallb] in Hn. apply andb_true_iff in Hn as [H0 Hn].
+    apply andb_true_iff in Hn as [H1 Hn]. apply andb_true_iff in Hn as [H2 _]. cbn [nth_or_panic nth_error bind].
+    apply np_bind; [apply Hc; [left; reflexivity | exact H0]|]. intros lft _. destruct (elements lft); [|(unfold np; discriminate)].
+    apply np_bind; [|(unfold np; discriminate)]. apply np_mapM. intros el _.
+    apply np_bind; [apply Hc; [right; right; left; reflexivity | exact H2]|]. intros r _.
+    destruct (negb (isFalseG r)); [|(unfold np; discriminate)]. apply Hc; [right; left; reflexivity | exact H1].
+  - (* ASTFlatten *)
+    destruct ch as [|c0 [|]]; try (unfold np; discriminate). cbn [forallb] in Hn. apply andb_true_iff in Hn as [H0 _]. cbn [nth_or_panic nth_error bind].
+    apply np_bind; [apply Hc; [left; reflexivity | exact H0]|]. intros lft _. destruct (elements lft); (unfold np; discriminate).
+  - (* ASTIndex *)
+    destruct val; try (unfold np; discriminate). destruct (elements g); [|(unfold np; discriminate)]. destruct (two63 <=? zlen l); [(unfold np; discriminate)|].
+    destruct (_ && _); (unfold np; discriminate).
+  - (* ASTIndexExpression *)
+    destruct ch as [|c0 [|c1 [|]]]; try (unfold np; discriminate). cbn [forallb] in Hn. apply andb_true_iff in Hn as [H0 Hn]. apply andb_true_iff in Hn as [H1 _].
+    cbn [nth_or_panic nth_error bind].
+    apply np_bind; [apply Hc; [left; reflexivity | exact H0]|]. intros lft _. apply Hc; [right; left; reflexivity | exact H1].
+  - (* ASTKeyValPair *)
+    destruct ch as [|c0 [|]]; try (unfold np; discriminate). cbn [forallb] in Hn. apply andb_true_iff in Hn as [H0 _]. cbn [nth_or_panic nth_error bind].
+    apply Hc; [left; reflexivity | exact H0].
+  - (* ASTLiteral *)
+    destruct val as [ | | | | |j]; try (unfold np; discriminate). destruct (embed j); (unfold np; discriminate).
+  - (* ASTMultiSelectHash *)
+    destruct (is_gnull g); [(unfold np; discriminate)|]. apply np_bind; [|(unfold np; discriminate)]. apply np_mapM. intros c Hin.
+    rewrite forallb_forall in Hn. specialize (Hn c Hin). apply andb_true_iff in Hn as [Hnc Hkv].
+    apply np_bind; [apply Hc; assumption|]. intros r _. destruct c as [cty cval cch]. cbn [node_val].
+    destruct cty; try (unfold np; discriminate). destruct cval; (unfold np; discriminate).
+  - (* ASTMultiSelectList *)
+    destruct (is_gnull g); [(unfold np; discriminate)|]. apply np_bind; [|(unfold np; discriminate)]. apply np_mapM. intros c Hin.
+    rewrite forallb_forall in Hn. apply Hc; [exact Hin | apply Hn; exact Hin].
+  - (* ASTOrExpression *)
+    destruct ch as [|c0 [|c1 [|]]]; try (unfold np; discriminate). cbn [forallb] in Hn. apply andb_true_iff in Hn as [H0 Hn]. apply andb_true_iff in Hn as [H1 _].
+    cbn [nth_or_panic nth_error bind].
+    apply np_bind; [apply Hc; [left; reflexivity | exact H0]|]. intros m _. destruct (isFalseG m); [|(unfold np; discriminate)].
+    apply Hc; [right; left; reflexivity | exact H1].
+  - (* ASTAndExpression *)
+    destruct ch as [|c0 [|c1 [|]]]; try (unfold np; discriminate). cbn [forallb] in Hn. apply andb_true_iff in Hn as [H0 Hn]. apply andb_true_iff in Hn as [H1 _].
+    cbn [nth_or_panic nth_error bind].
+    apply np_bind; [apply Hc; [left; reflexivity | exact H0]|]. intros m _. destruct (isFalseG m); [(unfold np; discriminate)|].
+    apply Hc; [right; left; reflexivity | exact H1].
+  - (* ASTNotExpression *)
+    destruct ch as [|c0 [|]]; try (unfold np; discriminate). cbn [forallb] in Hn. apply andb_true_iff in Hn as [H0 _]. cbn [nth_or_panic nth_error bind].
+    apply np_bind; [apply Hc; [left; reflexivity | exact H0]|]. intros m _. (unfold np; discriminate).
+  - (* ASTPipe *)
+    apply np_fold_pipe; [(unfold np; discriminate)|]. intros c g' Hin. rewrite forallb_forall in Hn. apply Hc; [exact Hin | apply Hn; exact Hin].
+  - (* ASTProjection *)
+    destruct ch as [|c0 [|c1 [|]]]; try (unfold np; discriminate). cbn [forallb] in Hn. apply andb_true_iff in Hn as [H0 Hn]. apply andb_true_iff in Hn as [H1 _].
+    cbn [nth_or_panic nth_error bind].
+    apply np_bind; [apply Hc; [left; reflexivity | exact H0]|]. intros lft _. destruct (elements lft); [|(unfold np; discriminate)].
+    apply np_bind; [|(unfold np; discriminate)]. apply np_mapM. intros el _. apply Hc; [right; left; reflexivity | exact H1].
+  - (* ASTSubexpression *)
+    destruct ch as [|c0 [|c1 [|]]]; try (unfold np; discriminate). cbn [forallb] in Hn. apply andb_true_iff in Hn as [H0 Hn]. apply andb_true_iff in Hn as [H1 _].
+    cbn [nth_or_panic nth_error bind].
+    apply np_bind; [apply Hc; [left; reflexivity | exact H0]|]. intros lft _. apply Hc; [right; left; reflexivity | exact H1].
+  - (* ASTSlice *)
+    destruct val as [ | | | | a b c | ]; try (unfold np; discriminate). destruct (elements g) as [l|]; [|(unfold np; discriminate)].
+    destruct (two63 <=? zlen l) eqn:El; [(unfold np; discriminate)|].
+    apply andb_true_iff in Hsv as [Hab Hcc]. apply andb_true_iff in Hab as [Ha Hb].
+    rewrite (slice_go_python l a b c) by (first [lia | apply opt_int64_spec; assumption]).
+    destruct (py_slice l a b c); (unfold np; discriminate).
 Qed.
 
 End WithNum.
